@@ -13,6 +13,7 @@ func init() {
 	rt.Register("C01_Derivations", C01_Derivations)
 	rt.Register("C02_BoundedReentry", C02_BoundedReentry)
 	rt.Register("C04_NodeXorError", C04_NodeXorError)
+	rt.Register("C01_LongInputs", C01_LongInputs)
 }
 
 // pickGrammar selects a grammar of the family (concrete fork).
@@ -391,4 +392,82 @@ func bindAll(e *G, p parsley.Parser) parsley.Parser {
 		return s.Bind(evalAll{})
 	}
 	return p
+}
+
+// C01_LongInputs: left-recursive rules on inputs long enough that a rule is
+// re-entered more than a hundred times at one position. The expected set of
+// ends has a closed form for these three grammars; the first byte and the last
+// two are symbolic, the rest is the concrete repetition.
+func C01_LongInputs() {
+	l := rt.Param("L", 120)
+	var g *Grammar
+	unit := 1 // bytes per repetition
+	switch rt.Choose("grammar", 3) {
+	case 0:
+		g = &Grammar{Name: "P->Pb|a", Rules: []*G{A(S(N(0), T('b')), T('a'))}}
+	case 1:
+		g = &Grammar{Name: "A->Bb|a;B->A", Rules: []*G{A(S(N(1), T('b')), T('a')), N(0)}}
+	default:
+		g = &Grammar{Name: "E->ExT|T;T->a", Rules: []*G{A(S(N(0), T('x'), N(1)), N(1)), T('a')}}
+		unit = 2
+		l = 2 * l
+	}
+	in := make([]byte, 0, l)
+	in = append(in, rt.Byte("in"))
+	for len(in) < l-2 {
+		if unit == 1 || len(in)%2 == 1 {
+			in = append(in, "bx"[unit-1])
+		} else {
+			in = append(in, 'a')
+		}
+	}
+	in = append(in, rt.Byte("in"), rt.Byte("in"))
+	rt.Note(g.Name)
+	e := newEnv(in)
+	bt := Build(g, nil)
+	node, _, _ := bt.Root.Parse(e.ctx, data.EmptyIntMap, e.rd.Pos(0))
+	// closed form: a, then as many whole repetitions as are there
+	var want []int
+	if in[0] == 'a' {
+		want = append(want, 1)
+		for p := 1; p+unit <= len(in); p += unit {
+			if unit == 1 && in[p] != 'b' {
+				break
+			}
+			if unit == 2 && (in[p] != 'x' || in[p+1] != 'a') {
+				break
+			}
+			want = append(want, p+unit)
+		}
+	}
+	got := map[int]bool{}
+	for _, alt := range Alternatives(node) {
+		if !SpansOK(alt, in, e.base) {
+			rt.Fail("long/spans", g.Name)
+			return
+		}
+		end := int(alt.ReaderPos()) - e.base
+		ok := false
+		for _, w := range want {
+			if w == end {
+				ok = true
+			}
+		}
+		if !ok {
+			rt.Fail("long/sound-end", g.Name+" returned end "+itoa(end))
+			return
+		}
+		got[end] = true
+	}
+	rt.ObsInt("ends", len(got))
+	for _, w := range want {
+		if !got[w] {
+			rt.Fail("long/complete-end", g.Name+" on an input of "+itoa(len(in))+" bytes does not return end "+itoa(w))
+			return
+		}
+	}
+	if len(want) > 100 {
+		rt.Cover("more than a hundred re-entries at one position")
+	}
+	rt.Assert(true, "long")
 }
